@@ -53,6 +53,15 @@ func (c *Conn) ResetSession(ctx context.Context) error {
 	return conn.ResetSession(ctx)
 }
 
+// IsValid is called by database/sql before a connection goes back to the
+// pool: the target connection decides, as it does without the proxy.
+func (c *Conn) IsValid() bool {
+	if validator, ok := c.targetConn.(driver.Validator); ok {
+		return validator.IsValid()
+	}
+	return true
+}
+
 // CheckNamedValue lets the target driver check and convert the arguments
 // exactly as it does without the proxy (database/sql otherwise falls back to
 // its default converter, which e.g. refuses uint64 values with the high bit set).
